@@ -3,6 +3,7 @@ package main
 import (
 	"encoding/json"
 	"fmt"
+	"google.golang.org/protobuf/runtime/protoimpl"
 
 	pgs "github.com/lyft/protoc-gen-star/v2"
 	"google.golang.org/protobuf/proto"
@@ -167,6 +168,42 @@ func callAccessor(r *astRun, e pgs.Entity, acc string) []ref {
 			}
 			return []ref{{0, []int{0}}}
 		}
+	case "optA", "optB":
+		// Extension(): the custom option is reported exactly when the request carries it, with its value ([1]) or not ([0])
+		bit, pre := 1, "a-of-"
+		if acc == "optB" {
+			bit, pre = 2, "b-of-"
+		}
+		pickI := func(a, b *protoimpl.ExtensionInfo) *protoimpl.ExtensionInfo {
+			if bit == 1 {
+				return a
+			}
+			return b
+		}
+		var got string
+		var has, want bool
+		var err error
+		name := e.Name().String()
+		switch x := e.(type) {
+		case pgs.File:
+			want = r.w.Opts && (r.refOf(x).File+1)%4&bit != 0
+			has, err = x.Extension(pickI(extFOptA, extFOptB), &got)
+		case pgs.Message:
+			want = r.w.Opts && !x.IsMapEntry() && optMask(r.refOf(x))&bit != 0
+			has, err = x.Extension(pickI(extOptA, extOptB), &got)
+		case pgs.Enum:
+			want = r.w.Opts && optMask(r.refOf(x))&bit != 0
+			has, err = x.Extension(pickI(extEOptA, extEOptB), &got)
+		case pgs.Service:
+			want = r.w.Opts && optMask(r.refOf(x))&bit != 0
+			has, err = x.Extension(pickI(extSOptA, extSOptB), &got)
+		default:
+			return []ref{{0, []int{0}}}
+		}
+		if err == nil && has == want && (!has || got == pre+name) {
+			return []ref{{0, []int{1}}}
+		}
+		return []ref{{0, []int{0}}}
 	case "syntax":
 		if f, ok := e.(pgs.File); ok {
 			switch f.Syntax() {
@@ -332,6 +369,11 @@ func (c06Engine) Run(raw json.RawMessage) (interface{}, error) {
 			}
 			canon[en.ref.key()+acc] = callAccessor(a, en.e, acc)
 		}
+		if en.kind == "msg" || en.kind == "file" || en.kind == "enum" || en.kind == "service" { // the custom options (asked at the end of the random histories only)
+			for _, acc := range []string{"optA", "optB"} {
+				canon[en.ref.key()+acc] = callAccessor(a, en.e, acc)
+			}
+		}
 	}
 	byRef := map[string]pgs.Entity{}
 	for _, en := range allEntities(b) {
@@ -466,6 +508,7 @@ func (c06Engine) Gen(g *Gen) {
 			}
 		}
 		w.Bidi = true
+		w.Opts = true // ordinary messages carry custom options (harness only)
 		if !g.Mine() {
 			// the op history needs the entity list: draw a fixed amount of randomness instead
 			g.Rng.Int63()
@@ -529,6 +572,18 @@ func (c06Engine) Gen(g *Gen) {
 			if lr.Intn(4) == 0 { // immediate repetition
 				w.Ops = append(w.Ops, opJ{c.rf, c.acc})
 			}
+		}
+		// every ordinary message is asked for its two custom options, in either order, twice: what one
+		// lookup found (or did not find) must not colour the next
+		for k, en := range allEntities(r) {
+			if (en.kind != "msg" && en.kind != "file" && en.kind != "enum" && en.kind != "service") || inMapEntry(w, en.ref) {
+				continue
+			}
+			first, second := "optA", "optB"
+			if k%2 == 1 {
+				first, second = second, first
+			}
+			w.Ops = append(w.Ops, opJ{en.ref, first}, opJ{en.ref, second}, opJ{en.ref, first}, opJ{en.ref, second})
 		}
 		// and at the end every file's descriptor read by content, after its syntax was asked for
 		for fi := range w.Files {
